@@ -1,0 +1,8 @@
+// Package veriftrace is a tracing seam used by external verification harnesses.
+//
+// Without the "verif" build tag every function in this package is an empty
+// function, so call sites compile to nothing.  With the tag, events are
+// forwarded to a sink a harness installs (and, when the VERIF_TRACE
+// environment variable names a file, appended to it as ndjson), and Gate
+// blocks until the harness releases the named gate.
+package veriftrace
